@@ -140,6 +140,8 @@ func runC14(e *Engine, r *Report) {
 	_ = strings.Contains
 	// deferred close/sync errors reach the caller (generic.go)
 	ruleDeferredErr(e, r, 1, "internal/rsm")
+	ruleStreamValidatorLookahead(e, r)
+	ruleExternalFileSize(e, r)
 	// error discipline of the snapshot file writers/readers: a failed block or tail write must
 	// not end in a successful Close (the file would be a well-formed shorter snapshot)
 	est := e.CheckErrDiscipline(r, errScope{pkgs: map[string]bool{}, files: map[string]bool{
